@@ -29,3 +29,115 @@ package definition
 //@   ensures err == nil ==> context.stakeExp == store(old(context.stakeExp), stake.Id, store(old(context.stakeExp[stake.Id]), stake.StakeAddress, stake.ExpirationTime))
 //@   ensures err != nil ==> context.stakeHas == old(context.stakeHas) && context.stakeAmt == old(context.stakeAmt) && context.stakeExp == old(context.stakeExp)
 //@   modifies context.stakeHas, context.stakeAmt, context.stakeExp
+
+//@ func StakeInfo.Delete(stake, context) -> (err)
+//@   trusted
+//@   requires stake != nil
+//@   ensures err == nil ==> context.stakeHas == store(old(context.stakeHas), stake.Id, store(old(context.stakeHas[stake.Id]), stake.StakeAddress, false)) && context.stakeAmt == store(old(context.stakeAmt), stake.Id, store(old(context.stakeAmt[stake.Id]), stake.StakeAddress, 0))
+//@   ensures err != nil ==> context.stakeHas == old(context.stakeHas) && context.stakeAmt == old(context.stakeAmt)
+//@   modifies context.stakeHas, context.stakeAmt
+
+// ---- plasma contract: fusion entry (owner, id) -> amount, expiration height, beneficiary; per-beneficiary total ------------
+//@ model github.com/zenon-network/go-zenon/common/db:DB fusionHas map[arr]map[arr]bool
+//@ model github.com/zenon-network/go-zenon/common/db:DB fusionAmt map[arr]map[arr]int
+//@ model github.com/zenon-network/go-zenon/common/db:DB fusionExp map[arr]map[arr]int
+//@ model github.com/zenon-network/go-zenon/common/db:DB fusionBen map[arr]map[arr]arr
+//@ model github.com/zenon-network/go-zenon/common/db:DB fusedAmt map[arr]int
+
+//@ func GetFusionInfo(context, owner, id) -> (info, err)
+//@   trusted
+//@   ensures err == nil ==> info != nil && fresh(info) && context.fusionHas[owner][id] && info.Owner == owner && info.Id == id && info.Amount != nil && val(info.Amount) == context.fusionAmt[owner][id] && info.ExpirationHeight == context.fusionExp[owner][id] && info.Beneficiary == context.fusionBen[owner][id]
+//@   ensures err != nil ==> info == nil
+//@   ensures err == constants.ErrDataNonExistent <==> !context.fusionHas[owner][id]
+//@   modifies nothing
+
+//@ func FusionInfo.Save(entry, context) -> (err)
+//@   trusted
+//@   requires entry != nil && entry.Amount != nil
+//@   ensures err == nil ==> context.fusionHas == store(old(context.fusionHas), entry.Owner, store(old(context.fusionHas[entry.Owner]), entry.Id, true))
+//@   ensures err == nil ==> context.fusionAmt == store(old(context.fusionAmt), entry.Owner, store(old(context.fusionAmt[entry.Owner]), entry.Id, val(entry.Amount)))
+//@   ensures err == nil ==> context.fusionExp == store(old(context.fusionExp), entry.Owner, store(old(context.fusionExp[entry.Owner]), entry.Id, entry.ExpirationHeight))
+//@   ensures err == nil ==> context.fusionBen == store(old(context.fusionBen), entry.Owner, store(old(context.fusionBen[entry.Owner]), entry.Id, entry.Beneficiary))
+//@   ensures err != nil ==> context.fusionHas == old(context.fusionHas) && context.fusionAmt == old(context.fusionAmt) && context.fusionExp == old(context.fusionExp) && context.fusionBen == old(context.fusionBen)
+//@   modifies context.fusionHas, context.fusionAmt, context.fusionExp, context.fusionBen
+
+//@ func FusionInfo.Delete(entry, context) -> (err)
+//@   trusted
+//@   requires entry != nil
+//@   ensures err == nil ==> context.fusionHas == store(old(context.fusionHas), entry.Owner, store(old(context.fusionHas[entry.Owner]), entry.Id, false)) && context.fusionAmt == store(old(context.fusionAmt), entry.Owner, store(old(context.fusionAmt[entry.Owner]), entry.Id, 0))
+//@   ensures err != nil ==> context.fusionHas == old(context.fusionHas) && context.fusionAmt == old(context.fusionAmt)
+//@   modifies context.fusionHas, context.fusionAmt
+
+// The per-beneficiary total; an absent record reads as zero.
+//@ func GetFusedAmount(context, beneficiary) -> (fused, err)
+//@   trusted
+//@   ensures err == nil ==> fused != nil && fresh(fused) && fused.Beneficiary == beneficiary && fused.Amount != nil && fresh(fused.Amount) && val(fused.Amount) == context.fusedAmt[beneficiary]
+//@   ensures err != nil ==> fused == nil
+//@   modifies nothing
+
+//@ func FusedAmount.Save(entry, context) -> (err)
+//@   trusted
+//@   requires entry != nil && entry.Amount != nil
+//@   ensures err == nil ==> context.fusedAmt == store(old(context.fusedAmt), entry.Beneficiary, val(entry.Amount))
+//@   ensures err != nil ==> context.fusedAmt == old(context.fusedAmt)
+//@   modifies context.fusedAmt
+
+//@ func FusedAmount.Delete(entry, context) -> (err)
+//@   trusted
+//@   requires entry != nil
+//@   ensures err == nil ==> context.fusedAmt == store(old(context.fusedAmt), entry.Beneficiary, 0)
+//@   ensures err != nil ==> context.fusedAmt == old(context.fusedAmt)
+//@   modifies context.fusedAmt
+
+// ---- htlc contract: entry id -> (time-locked, hash-locked, token, amount, expiration, hash type, key max size, hash lock) ----
+//@ model github.com/zenon-network/go-zenon/common/db:DB htlcHas map[arr]bool
+//@ model github.com/zenon-network/go-zenon/common/db:DB htlcTimeLocked map[arr]arr
+//@ model github.com/zenon-network/go-zenon/common/db:DB htlcHashLocked map[arr]arr
+//@ model github.com/zenon-network/go-zenon/common/db:DB htlcToken map[arr]arr
+//@ model github.com/zenon-network/go-zenon/common/db:DB htlcAmt map[arr]int
+//@ model github.com/zenon-network/go-zenon/common/db:DB htlcExp map[arr]int
+//@ model github.com/zenon-network/go-zenon/common/db:DB htlcHashType map[arr]int
+//@ model github.com/zenon-network/go-zenon/common/db:DB htlcKeyMax map[arr]int
+//@ model github.com/zenon-network/go-zenon/common/db:DB htlcLockLen map[arr]int
+//@ model github.com/zenon-network/go-zenon/common/db:DB htlcLockByte map[arr]map[int]int
+//@ model github.com/zenon-network/go-zenon/common/db:DB proxyHas map[arr]bool
+//@ model github.com/zenon-network/go-zenon/common/db:DB proxyAllowed map[arr]bool
+
+//@ func GetHtlcInfo(context, id) -> (info, err)
+//@   trusted
+//@   ensures err == nil ==> info != nil && fresh(info) && context.htlcHas[id] && info.Id == id && info.Amount != nil && val(info.Amount) == context.htlcAmt[id]
+//@   ensures err == nil ==> info.TimeLocked == context.htlcTimeLocked[id] && info.HashLocked == context.htlcHashLocked[id] && info.TokenStandard == context.htlcToken[id] && info.ExpirationTime == context.htlcExp[id] && info.HashType == context.htlcHashType[id] && info.KeyMaxSize == context.htlcKeyMax[id]
+//@   ensures err == nil ==> len(info.HashLock) == context.htlcLockLen[id] && (forall j int :: 0 <= j && j < len(info.HashLock) ==> info.HashLock[j] == context.htlcLockByte[id][j])
+//@   ensures err != nil ==> info == nil
+//@   ensures err == constants.ErrDataNonExistent <==> !context.htlcHas[id]
+//@   modifies nothing
+
+//@ func HtlcInfo.Save(h, context) -> (err)
+//@   trusted
+//@   requires h != nil && h.Amount != nil
+//@   ensures err == nil ==> context.htlcHas == store(old(context.htlcHas), h.Id, true) && context.htlcAmt == store(old(context.htlcAmt), h.Id, val(h.Amount)) && context.htlcTimeLocked == store(old(context.htlcTimeLocked), h.Id, h.TimeLocked) && context.htlcHashLocked == store(old(context.htlcHashLocked), h.Id, h.HashLocked)
+//@   ensures err == nil ==> context.htlcToken == store(old(context.htlcToken), h.Id, h.TokenStandard) && context.htlcExp == store(old(context.htlcExp), h.Id, h.ExpirationTime) && context.htlcHashType == store(old(context.htlcHashType), h.Id, h.HashType) && context.htlcKeyMax == store(old(context.htlcKeyMax), h.Id, h.KeyMaxSize) && context.htlcLockLen == store(old(context.htlcLockLen), h.Id, len(h.HashLock))
+//@   ensures err == nil ==> (forall i arr :: i != h.Id ==> context.htlcLockByte[i] == old(context.htlcLockByte[i])) && (forall j int :: 0 <= j && j < len(h.HashLock) ==> context.htlcLockByte[h.Id][j] == h.HashLock[j])
+//@   ensures err != nil ==> context.htlcHas == old(context.htlcHas) && context.htlcAmt == old(context.htlcAmt)
+//@   modifies MF:common/db.DB.htlc
+
+//@ func HtlcInfo.Delete(h, context) -> (err)
+//@   trusted
+//@   requires h != nil
+//@   ensures err == nil ==> context.htlcHas == store(old(context.htlcHas), h.Id, false) && context.htlcAmt == store(old(context.htlcAmt), h.Id, 0)
+//@   ensures err != nil ==> context.htlcHas == old(context.htlcHas) && context.htlcAmt == old(context.htlcAmt)
+//@   modifies context.htlcHas, context.htlcAmt
+
+//@ func GetHtlcProxyUnlockInfo(context, address) -> (info, err)
+//@   trusted
+//@   ensures err == nil ==> info != nil && fresh(info) && context.proxyHas[address] && info.Address == address && info.Allowed == context.proxyAllowed[address]
+//@   ensures err != nil ==> info == nil
+//@   ensures err == constants.ErrDataNonExistent <==> !context.proxyHas[address]
+//@   modifies nothing
+
+//@ func HtlcProxyUnlockInfo.Save(entry, context) -> (err)
+//@   trusted
+//@   requires entry != nil
+//@   ensures err == nil ==> context.proxyHas == store(old(context.proxyHas), entry.Address, true) && context.proxyAllowed == store(old(context.proxyAllowed), entry.Address, entry.Allowed)
+//@   ensures err != nil ==> context.proxyHas == old(context.proxyHas) && context.proxyAllowed == old(context.proxyAllowed)
+//@   modifies context.proxyHas, context.proxyAllowed
